@@ -501,8 +501,66 @@ def check_tries(rep, s, key, n, where, vpath="validate_and_rename_recursive"):
 def check_collection_and_support(prog, rep):
     cu = collect_fn(prog)
     if cu is None:
-        rep.unresolved("C07-R4", "collect_unique_hctl_vars_recursive", "", "the recursive collector behind collect_unique_hctl_vars was not found")
-        return
+        if not check_worklist_collector(prog, rep):
+            rep.unresolved("C07-R4", "collect_unique_hctl_vars_recursive", "", "the recursive collector behind collect_unique_hctl_vars was not found")
+            return
+    else:
+        check_recursive_collector(prog, rep, cu)
+    check_support(prog, rep)
+
+
+def check_worklist_collector(prog, rep):
+    """The collector written as a loop over an explicit work-list: the same per-shape statement (children visited, variable recorded
+    exactly for bind / exists / forall, nothing dropped) over the loop body."""
+    import worklist
+    pub = prog.lib_fn("mc_utils::collect_unique_hctl_vars")
+    if pub is None:
+        return False
+    s = terms.Engine(prog, inline=True, hooks=E.Hooks(["mc_utils::"])).summary(pub)
+    root = ("param", pub.param_names()[0])
+    tr = worklist.Traversal(s, root)
+    if not tr.ok:
+        return False
+    rep.functions.add(pub.qual)
+    nz = norm.Normalizer()
+    acc = s.ret
+    while isinstance(acc, tuple) and acc[0] == "call" and str(acc[1]).rsplit("::", 1)[-1] in ("clone", "into") and len(acc[2]) == 1:
+        acc = acc[2][0]
+    # the result is the accumulator of the traversal, starting empty
+    acc_ok = isinstance(acc, tuple) and acc[0] == "mu" and acc[1] == tr.lid and acc[3][0] == "call" and \
+        str(acc[3][1]).rsplit("::", 1)[-1] in ("new", "default", "with_capacity")
+    accvar = ("loopvar", tr.lid, acc[2]) if acc_ok else None
+    c, l, r = ("param", "#c"), ("param", "#l"), ("param", "#r")
+    where = f"{pub.file}:{pub.line}"
+    cases = [("Terminal", E.shape_atom("Prop", ("lit", "p")), [], None), ("Unary", E.shape_unary("EX", c), [c], None),
+             ("Binary", E.shape_binary("And", l, r), [l, r], None)]
+    for op in ("Bind", "Exists", "Forall", "Jump"):
+        cases.append((op, E.shape_hybrid(op, ("lit", "z"), None, c), [c], ("lit", "z") if op in QUANT else None))
+
+    def unbox(t):
+        while isinstance(t, tuple) and t and t[0] == "call" and str(t[1]).rsplit("::", 1)[-1] in ("deref", "clone", "as_ref", "borrow") and len(t[2]) == 1:
+            t = t[2][0]
+        return t
+    for name, shape, kids, var in cases:
+        node = E.node_term(shape)
+        on = [(x, tr.on_shape(x, node, nz)) for x in tr.pushes + tr.sites]
+        und = [x for x, v in on if v is None and (x in tr.pushes or (x.kind == "mcall" and x.args and worklist.strip_mut(x.args[0]) == accvar))]
+        if und or not acc_ok:
+            rep.unresolved("C07-R4", f"collect:{name}", where, "the path taken by the work-list loop for this node shape could not be decided" if und
+                           else "the result is not the accumulator of the traversal")
+            continue
+        visited = [unbox(nz(tr.on_node(x.args[1], node))) for x, v in on if v and x in tr.pushes]
+        touched = [x for x, v in on if v and x not in tr.pushes and x.kind in ("mcall", "call") and x.args and worklist.strip_mut(x.args[0]) == accvar]
+        inserted = [nz(tr.on_node(x.args[1], node)) for x in touched if x.name == "insert" and len(x.args) == 2]
+        good = sorted(map(repr, visited)) == sorted(map(repr, kids)) and inserted == ([var] if var else []) and len(touched) == len(inserted)
+        rep.check(good, "C07-R4", f"collect:{name}", where,
+                  "every child is visited; the variable is collected exactly for bind / exists / forall; earlier findings are kept (work-list traversal)",
+                  f"for a {name} node: visited children {[sem.short(x, 30) for x in visited]}, collected {[sem.short(x, 30) for x in inserted]}; "
+                  f"expected children {[sem.short(x, 30) for x in kids]}, collected {[sem.short(var, 30)] if var else []}")
+    return True
+
+
+def check_recursive_collector(prog, rep, cu):
     rep.functions.add(cu.qual)
     pn = cu.param_names()
     COLLECT = cu.path
@@ -542,6 +600,9 @@ def check_collection_and_support(prog, rep):
                   "every child is visited; the variable is collected exactly for bind / exists / forall; earlier findings are kept",
                   f"for a {name} node: visited children {[sem.short(x, 30) for x in visited]}, collected {[sem.short(x, 30) for x in inserted]}; "
                   f"expected children {[sem.short(x, 30) for x in kids]}, collected {[sem.short(var, 30)] if var else []}")
+
+
+def check_support(prog, rep):
     chk = prog.lib_fn("mc_utils::check_hctl_var_support")
     if chk is None:
         rep.unresolved("C07-R4", "check_hctl_var_support", "", "function not found")
@@ -579,6 +640,19 @@ def check_collection_and_support(prog, rep):
                         good = True
                     if not pol and ((cnd[1] == "<=" and lhs_is_count) or (cnd[1] == ">=" and not lhs_is_count)):
                         good = True
+    # `n <= min over the variables of extra(v).len()` (true when there is no variable): the same comparison against the smallest count
+    nzt = norm.Normalizer()(t)
+    for x in [nzt] + list(subterms(nzt)):
+        if x[0] == "bin" and x[1] in ("<=", ">=", "<", ">") and "collect_unique_hctl_vars" in pt(x) and "extra_state_variables" in pt(x):
+            lhs_is_count = "collect_unique_hctl_vars" in pt(x[2])
+            other = x[3] if lhs_is_count else x[2]
+            mn = other[1] if other[0] == "proj" else other
+            is_min = mn[0] == "call" and isinstance(mn[1], str) and mn[1].rsplit("::", 1)[-1] == "min" and len(mn[2]) == 1 and "extra_state_variables" in pt(mn[2][0])
+            if is_min and ((x[1] == "<=" and lhs_is_count) or (x[1] == ">=" and not lhs_is_count)):
+                # the value is `no variable || n <= min`
+                top = nzt
+                ok_none = top[0] == "bin" and top[1] == "||" and any(y[0] == "not" and q.is_some_test(y[1]) == mn for y in (top[2], top[3]))
+                good = good or ok_none or top == x
     rep.check(good and uses and terms.mentions_param(t, cpn[1]) if len(cpn) > 1 else False, "C07-R4", "check_hctl_var_support", f"{chk.file}:{chk.line}",
               "false iff #quantifier variables of the tree > #spare variable sets of some network variable",
               f"support check computes {sem.short(t, 200)}: it must compare the number of collected variables with the number of spare variable sets of every network variable")
